@@ -185,6 +185,8 @@ impl<'a, F: IVP> SolOut for DefaultSolOut<'a, F> {
                     let config = &self.event_config[i];
 
                     if crossed(g_prev, g_curr, &config.direction) {
+                        #[cfg(feature = "verif")]
+                        crate::verif::tick(crate::verif::EVENT_ROOT_SEARCH);
                         // Refine event location using Brent's method (matches scipy's brentq)
                         // Tolerances match scipy defaults: xtol=2e-12, rtol=machine_epsilon
                         const XTOL: Float = 2e-12;
@@ -208,6 +210,8 @@ impl<'a, F: IVP> SolOut for DefaultSolOut<'a, F> {
                             let mut e = d;
 
                             for _ in 0..MAXITER {
+                                #[cfg(feature = "verif")]
+                                crate::verif::tick(crate::verif::BRENT_LOOP);
                                 if fb * fc > 0.0 {
                                     c = a;
                                     fc = fa;
